@@ -67,10 +67,34 @@ pub fn run(cx: &mut Ctx, args: &Args, rng: &mut Rng) -> i32 {
         let mut r = rng.fork(name);
         for len in key_lens(&cx.types[ti], all_lens) {
             cx.reset(name);
+            let mut prev_key: Option<Vec<u8>> = None;
             for (kc, key) in mix(&mut r, len, nkeys) {
-                let blocks = mix(&mut r, bs, nblocks);
+                let mut blocks = mix(&mut r, bs, nblocks);
+                if !key.is_empty() {
+                    // inputs in a relation with the key: the block repeats the key bytes (or their complement)
+                    let flip = if r.below(2) == 0 { 0x00 } else { 0xFF };
+                    blocks.push(("keyrel".into(), (0..bs).map(|i| key[i % key.len()] ^ flip).collect()));
+                }
                 let Some((id, inst)) = cx.construct(ti, "slice", &key, &kc) else { continue };
                 exercise(cx, id, inst.as_ref(), &blocks, &mut r, batch);
+                // construction routes other than the constructors: a clone, and clone_from onto an instance keyed with
+                // the previous key, must compute the same function (both directions on one block each)
+                if let Some((cid, c)) = cx.clone_of(id, inst.as_ref()) {
+                    exercise(cx, cid, c.as_ref(), &blocks[..1], &mut r, false);
+                    cx.drop_inst(cid, c);
+                }
+                if let Some(pk) = prev_key.as_ref().filter(|k: &&Vec<u8>| k.len() == key.len() && **k != key) {
+                    if let Some((oid, mut o)) = cx.construct(ti, "slice", pk, "clone-from-target") {
+                        match cx.clone_from(oid, &mut o, id, inst.as_ref()) {
+                            Some(nid) => {
+                                exercise(cx, nid, o.as_ref(), &blocks[blocks.len() - 1..], &mut r, false);
+                                cx.drop_inst(nid, o);
+                            }
+                            None => cx.drop_inst(oid, o),
+                        }
+                    }
+                }
+                prev_key = Some(key.clone());
                 // Enc-only types: join with the decrypting halves through the conversions
                 if kind == Kind::Enc {
                     for to in inst.conv_targets() {
